@@ -146,6 +146,8 @@ def resolve : Nat := 238
 def deref : Nat := 119
 def as_child : Nat := 253
 def next : Nat := 254
+def children_from : Nat := 258
+def children_to : Nat := 259
 def get_or_add_element : Nat := 256
 def get_or_add_node : Nat := 257
 def children : Nat := 255
